@@ -5,8 +5,8 @@ from .geo_common import *  # noqa
 
 ID = "C10"
 LEVEL = "exploration"
-PROBES = ('volumes_judged', 'volumes_direct', 'density_judged')
-RULE = ('geometry cases with density entries over-weighted; judged: (i) every volume(params) the library computed during simulated sampling on every node (monitor) and volume(params) of the root against R-geo closed forms / composition rules (rtol 1e-4, one positive value per row), (ii) density sampling: rows == ceil(d*mu) for closed-form primitives and their boundaries (float rounding at integers accepted), grid rows in [0|1, ceil(d*mu)+leaves-1], (iii) pooled mean count of rejection-based shapes and Boolean combinations against d*mu_true (z-test alpha=1e-9, mu_true by quadrature of the reference margin) in the thorough pre-phase, (iv) histories: set_volume / flags through partial evaluation, translation, rotation. non-trivial = at least one volume or count judged')
+PROBES = ('volumes_judged', 'volumes_direct', 'density_judged', 'count_tests', 'ops_judged')
+RULE = ('geometry cases with density entries over-weighted; judged: (i) every volume(params) the library computed during simulated sampling on every node (monitor) and volume(params) of the root against R-geo closed forms / composition rules (rtol 1e-4, one positive value per row), (ii) density sampling: rows == ceil(d*mu) for closed-form primitives and their boundaries (float rounding at integers accepted), grid rows in [0|1, ceil(d*mu)+leaves-1], (iii) pooled mean count of rejection-based shapes and Boolean combinations against d*mu_true (z-test alpha=1e-9, mu_true by quadrature of the reference margin) (40 pooled calls per case in quick, 400 in thorough), (iv) histories: set_volume / flags through partial evaluation, translation, rotation. non-trivial = at least one volume or count judged')
 ASSUMPTIONS = GEO_ASSUMPTIONS + ['volume() of expressions without an exact value (non-disjoint unions, non-contained cuts, intersections, dependent products) is only checked for shape/positivity where monitored']
 
 
@@ -16,10 +16,60 @@ def budget(tier):
 
 
 def gen_case(seed, tier="quick"):
-    return geo_cases.gen_case(ID, seed)
+    import numpy as np
+    from ..core.seed import H, rnd
+    from .. import gen_geo as GG
+    r = rnd(seed, "engine")
+    c = r.random()
+    if c < 0.80:
+        return geo_cases.gen_case(ID, seed)
+    rng = np.random.default_rng(H(seed, "ref") % (2 ** 32))
+    base = {"format": 1, "property": ID, "seed": seed, "rng": H(seed, "rng"), "fault": None}
+    if c < 0.88:
+        # (iii) pooled mean count of rejection-based shapes and Boolean combinations (parameter free)
+        if r.random() < 0.3:
+            dom = GG.gen_par(r, "x", tri=True)
+        else:
+            dom = None
+            for _ in range(20):
+                dom = GG.gen_bool(r, rng, GG.gen_prim2(r, "x"), [], "x")
+                if dom is not None:
+                    break
+            if dom is None:
+                dom = GG.gen_par(r, "x", tri=True)
+        base.update(engine="volumesim", kind="count", dom=dom, d=r.choice((20.0, 55.0, 130.0)),
+                    calls=40 if tier == "quick" else 400, via=r.choice(("domain", "sampler")))
+        return base
+    # (iv) set_volume histories
+    pvar = "t" if r.random() < 0.5 else None
+    k = r.choice(("iv", "circ", "par", "tri"))
+    dom = GG.gen_iv(r, "x", pvar, 0.8) if k == "iv" else (GG.gen_circ(r, "x", pvar, 0.8) if k == "circ"
+                                                         else GG.gen_par(r, "x", pvar, 0.8, tri=(k == "tri")))
+    dep = bool(G.free_vars(dom))
+    vol = {"aff": [r.choice((2.0, 3.5)), r.choice((1.0, 4.0))]} if (dep and r.random() < 0.6) else {"c": r.choice((0.75, 2.5, 7.0))}
+    ops = [o for o in ("volume", "density", "call", "translate", "rotate", "product", "union") if r.random() < 0.6] or ["volume"]
+    if k == "iv":
+        ops = [o for o in ops if o not in ("rotate",)]
+    r.shuffle(ops)
+    base.update(engine="volumesim", kind="hist", dom=dom, pspace=[["t", 1]] if dep else [], t=GG.q(r.uniform(0, 1)),
+                volume=vol, ops=ops, d=r.choice((3.0, 20.0)), exact_count=(k in ("iv", "circ", "par")))
+    return base
 
 
 def run_case(case):
+    if case.get("engine") == "volumesim":
+        from .. import volumesim
+        return volumesim.run_count(case) if case["kind"] == "count" else volumesim.run_hist(case)
     rec = geosim.run_case(case, props=(ID,))
     finish(rec, case, judged_key='volumes_direct')
     return rec
+
+
+def shrink(case):  # noqa: F811 (overrides the geometry shrinker for the history cases)
+    if case.get("engine") == "volumesim":
+        if case["kind"] == "hist" and len(case["ops"]) > 1:
+            for i in range(len(case["ops"])):
+                yield dict(case, ops=case["ops"][:i] + case["ops"][i + 1:])
+        return
+    from . import geo_common
+    yield from geo_common.shrink(case)
